@@ -88,12 +88,15 @@ func runC05(p *Program, r *Report) {
 	for _, m := range []struct {
 		r string
 		n int
-	}{{"C05.R1", 4}, {"C05.R2", 4}, {"C05.R3", 2}, {"C05.R4", 4}, {"C05.R5", 1}, {"C05.R7", 7}, {"C05.R8", 1}, {"C05.R9", 1}} {
+	}{{"C05.R1", 4}, {"C05.R2", 4}, {"C05.R3", 2}, {"C05.R4", 4}, {"C05.R5", 1}, {"C05.R7", 7}, {"C05.R8", 1}, {"C05.R9", 1}, {"C05.R10", 15}} {
 		r.Min(m.r, m.n)
 	}
 	checkSpeculativeMerge(p, r, "C05.R7")
 	checkEscapedMarkOnlyForAnalysed(p, r, "C05.R8")
 	checkNoRecover(p, r, "C05.R9")
+	// an error context that keeps a delimiter, an attribute or an element is taken for a live context by the
+	// text scanner at the next closing quote or end tag, and the failure is forgotten
+	checkErrorContextsCanonical(p, r, "C05.R10")
 	// ---- R1 / R5: package-level escapeTemplate ------------------------------------
 	et := p.Func("template", "escapeTemplate")
 	if et == nil {
